@@ -664,3 +664,13 @@ PROPS["C02"]["level_text"] = ("Partial proof: shape of every successful run (lis
     " no late non-ASCII latch: 84 % of the optimiser's plans in the sweep), for ASCII / Base 256 / EDIFACT-final-stretch plans, for the pure plan of each of the six modes, behind no header / FNC1 / Macro 05 / 06, and composed with the planner model (planned_conformant);"
     " EDIFACT together with C40 / Text / X12 or left before the end, late latches and ECI prefixes: the reference decoder is the oracle on every stream of the sweep; the encoder model is tied to the code by correspondence on real and injected plans.")
 PROPS["C02"]["unproved"] = ["spec round trip for plans that combine EDIFACT with C40 / Text / X12, leave EDIFACT before the end of the data, or latch into a non-ASCII mode within the last four characters; ECI prefix codewords"]
+
+# C02: every plan within PlanOKE against the reference decoder
+PROPS["C02"]["lean"] = list(PROPS["C02"]["lean"]) + ["DM.Props.C02SpecMixedE"]
+PROPS["C02"]["explanation"] += (" spec_mixed_roundtrip_E / _Eb (DM/Props/C02SpecMixedE.lean, DM/Lemmas/SpecMainAll.lean: stepB_all dispatches on the mode - ASCII, Base 256, C40 / Text, X12 and EDIFACT as the final stretch - over the state invariant RInvAll):"
+    " for every plan within PlanOKE (the executable planOKEb: EDIFACT only as the final stretch over EDIFACT characters, no latch to a non-ASCII mode planned for the last four characters - the side condition of mixed_roundtrip_E, 94 % of the optimiser's plans in the sweep),"
+    " every message of bytes, every symbol list and each header, the reference decoder accepts the encoder model's stream and returns the message; planned_conformant_E composes it with the coupling theorem.")
+PROPS["C02"]["level_text"] = ("Partial proof: shape of every successful run (listed symbol, exact length, standard padding reached in ASCII mode) for all plans; conformance against the independent reference decoder is a theorem for every plan within the decidable side condition PlanOKE"
+    " (all six modes; EDIFACT only as the final stretch; no late non-ASCII latch: 94 % of the optimiser's plans in the sweep), behind no header / FNC1 / Macro 05 / 06, and composed with the planner model (planned_conformant_E: encoder success is a conclusion);"
+    " EDIFACT left before the end of the data, late latches and ECI prefixes: the reference decoder is the oracle on every stream of the sweep; the encoder model is tied to the code by correspondence on real and injected plans.")
+PROPS["C02"]["unproved"] = ["spec round trip for plans that leave EDIFACT before the end of the data or latch into a non-ASCII mode within the last four characters; ECI prefix codewords"]
